@@ -169,3 +169,65 @@ def _ret_where(b, p):
         if e.kind == 'call' and e.line:
             return '%s:%d' % (b.file, e.line)
     return b.where()
+
+
+def check_poly_division(facts, rep):
+    """P1 (C15, "a = (a/b) b + a%b ... polynomial long division over a field"): one step of Poly::div_rem returns either
+    (0, f) when deg f < deg g, or (q, f - q*g) with q = (lt f / lt g) = (a/b) x^(i-j) - the identity f = q g + r by
+    construction and the leading term cancelled; the driver starts from (0, self), adds the step quotient to q and
+    replaces r by the step remainder, deg(self) - deg(rhs) + 1 times; Div / Rem are the two components."""
+    import re
+    from symex import SymEx, show
+    K = 'yui::types::poly::poly::PolyBase::<types::poly::var::Var<X, usize>, R>::div_rem'
+    b = facts.bodies.get(K)
+    c = facts.bodies.get(K + '::{closure#0}')
+    if not (b and c):
+        rep.indet('E3.P1: Poly::div_rem not found')
+        return
+    rep.saw(b)
+    rep.saw(c)
+
+    def dk(t):
+        return re.sub(r'#\d+\.\d+', '', show(t, -1000)).replace('&', '')
+    steps = set()
+    for p in SymEx(c).run():
+        if p.end == 'return':
+            conds = tuple((dk(e.term), e.value != 0) for e in p.branches() if 'Overflow' not in dk(e.term))
+            steps.add((dk(p.ret), conds))
+    Q = 'from((from(SubWithOverflow(deg(lead_term(arg2).0), deg(lead_term(arg3).0)).0), div(lead_term(arg2).1, lead_term(arg3).1)))'
+    want = {('(zero(), arg2)', (('Lt(lead_deg(arg2), lead_deg(arg3))', True),)),
+            ('(%s, sub(arg2, mul(%s, arg3)))' % (Q, Q), (('Lt(lead_deg(arg2), lead_deg(arg3))', False),))}
+    inst = 'Poly::div_rem step|(0, f) if deg f < deg g else (q, f - q g), q = lt(f) / lt(g)'
+    if steps == want:
+        rep.ok('E3.P1-poly-division', inst, 'f = q g + r by construction, leading term cancelled')
+    else:
+        diff = sorted(s[0][:200] for s in steps - want)
+        known = all(re.match(r'\((zero\(\)|from\(.*\)), (arg2|sub\(arg2, mul\(.*, arg3\)\))\)$', s[0]) for s in steps)
+        if known and len(steps) == 2:
+            rep.violation('E3.P1-poly-division', inst, 'the division step returns %s: either the remainder is not f - q*g for the quotient that is returned, or q is not lt(f)/lt(g) = (a/b) x^(i-j)' % diff, where=c.where())
+        else:
+            rep.indet('E3.P1: division step outside the recognised fragment: %s' % diff)
+    shapes = set()
+    rng = set()
+    for p in SymEx(b, max_paths=2000).run():
+        if p.end != 'return':
+            continue
+        n_iter = sum(1 for e in p.calls() if e.name.endswith('{closure#0}'))
+        shapes.add((n_iter, dk(p.ret)))
+        for e in p.calls():
+            if e.name.split('::')[-1] == 'into_iter' and len(e.args) == 1:
+                rng.add(dk(e.args[0]))
+    C = '{closure#0}(closure<{closure#0}>, (clone(arg1), arg2))'
+    w0 = (0, '(zero(), clone(arg1))')
+    w1 = (1, '(add(zero(), %s.0), %s.1)' % (C, C))
+    inst = 'Poly::div_rem driver|q += step quotient, r = step remainder, deg f - deg g + 1 times'
+    if w0 in shapes and w1 in shapes and rng == {'new(lead_deg(arg2), lead_deg(arg1))'}:
+        rep.ok('E3.P1-poly-division', inst, 'starts from (0, self); RangeInclusive(deg rhs, deg self)')
+    else:
+        s1 = sorted(x[1][:160] for x in shapes if x[0] == 1)
+        if rng and rng != {'new(lead_deg(arg2), lead_deg(arg1))'} and w0 in shapes and all(re.match(r'(new\(|Range::Range\{)', x) for x in rng):
+            rep.violation('E3.P1-poly-division', inst, 'the step is repeated over %s, expected deg(rhs) ..= deg(self)' % sorted(rng), where=b.where())
+        elif w0 in shapes and s1 and w1 not in shapes and all(C in x for x in s1):
+            rep.violation('E3.P1-poly-division', inst, 'after one step the driver holds %s, expected (0 + q1, r1)' % s1, where=b.where())
+        else:
+            rep.indet('E3.P1: driver of div_rem outside the recognised fragment: %s over %s' % (sorted(shapes)[:3], sorted(rng)))
